@@ -1,2 +1,184 @@
-(* C12 — stub: no theorems yet *)
-From Zap Require Import Base.Wire C12.Model C12.Proofs.
+(* C12 -- BufferedWriteSyncer delivers every byte once, in order, in whole writes.
+   Only statements closed by [exact]; the proofs are in C12/Proofs.v and C12/ConcProofs.v.
+   Vocabulary (C12/Model.v): [run (init size outs) ops] = final state and, per operation, its
+   result and the sink events it caused; [outs] = the sink's outcome script ([reliable]: it never
+   fails); [accepted ops] = the Write arguments; [received evs] = what the sink holds, one entry per
+   sink write; [Grp acc sw b] = acc splits into groups, one sink write per group, plus the writes
+   whose concatenation is the buffer b.  Sizes: any Z (0 -> 256 KiB, negative -> bufio's 4096). *)
+From Coq Require Import List ZArith Bool Arith.
+From Coq.Strings Require Import Byte.
+Import ListNotations.
+From Zap Require Import Base.Wire C12.Model C12.Proofs C12.Conc C12.ConcProofs.
+
+(* ---- delivery: every state of every history (hence every crash point) ---- *)
+(* the sink holds whole accepted writes, grouped, in order; the rest is in the buffer, which
+   never exceeds the configured size *)
+Theorem C12_whole : forall c outs ops, reliable outs = true ->
+  let '(s, tr) := run (init c outs) ops in
+  Grp (accepted ops) (received (all_evs tr)) (buf (w s)) /\ length (buf (w s)) <= eff_size c.
+Proof. exact whole_thm. Qed.
+Print Assumptions C12_whole.
+
+(* no byte lost, duplicated or reordered *)
+Theorem C12_stream : forall c outs ops, reliable outs = true ->
+  let '(s, tr) := run (init c outs) ops in
+  concat (received (all_evs tr)) ++ buf (w s) = concat (accepted ops).
+Proof. exact stream_rel_thm. Qed.
+Print Assumptions C12_stream.
+
+(* abrupt termination after any prefix ops1 of any history ops1 ++ ops2: the sink content at that
+   point is whole-write aligned w.r.t. the writes accepted so far, and is extended, never
+   rewritten, by what follows *)
+Theorem C12_crash : forall c outs ops1 ops2, reliable outs = true ->
+  let '(s1, tr1) := run (init c outs) ops1 in
+  let '(s2, tr2) := run (init c outs) (ops1 ++ ops2) in
+  Grp (accepted ops1) (received (all_evs tr1)) (buf (w s1)) /\
+  exists more, tr2 = tr1 ++ more /\ received (all_evs tr2) = received (all_evs tr1) ++ received (all_evs more).
+Proof. exact crash_thm. Qed.
+Print Assumptions C12_crash.
+
+(* ---- Sync, a processed tick, Stop (first or repeated, before or after use) ---- *)
+(* afterwards nothing is held back and the sink was synced after its last write *)
+Theorem C12_sync : forall c outs ops o, reliable outs = true ->
+  let '(s0, tr0) := run (init c outs) ops in
+  let '(s1, r, es) := Model.step s0 o in
+  flushing o (loop s0) = true -> buf (w s1) = [] /\ dirty_of false (all_evs tr0 ++ es) = false.
+Proof. exact sync_thm. Qed.
+Print Assumptions C12_sync.
+
+(* everything accepted before it is in the sink at every later point of the history *)
+Theorem C12_acked : forall c outs ops o ops2, reliable outs = true ->
+  flushing o (loop (fst (run (init c outs) ops))) = true ->
+  let '(s2, tr2) := run (init c outs) (ops ++ o :: ops2) in
+  exists more, concat (received (all_evs tr2)) = concat (accepted ops) ++ more.
+Proof. exact acked_thm. Qed.
+Print Assumptions C12_acked.
+
+(* over a reliable sink every Write returns (len, nil), Sync and Stop return nil *)
+Theorem C12_results : forall c outs ops, reliable outs = true ->
+  Forall2 res_ok ops (map fst (snd (run (init c outs) ops))).
+Proof. exact results_thm. Qed.
+Print Assumptions C12_results.
+
+(* ---- lifecycle ---- *)
+(* the flush goroutine runs exactly from the first Write to the first Stop after it
+   (Write/Sync before use initialise lazily; Stop before any use is a no-op) *)
+Theorem C12_lifecycle : forall c outs ops, reliable outs = true ->
+  loop (fst (run (init c outs) ops)) = is_running (spec_phase ops).
+Proof. exact lifecycle_thm. Qed.
+Print Assumptions C12_lifecycle.
+
+(* Stop may be repeated: from any state at all, with any sink, a Stop that follows a Stop changes
+   neither the buffer nor the flags, writes nothing to the sink (at most it syncs it) *)
+Theorem C12_stop_idempotent : forall fx s,
+  let s1 := fst (fst (step_gen fx s Stop)) in
+  let '(s2, r, es) := step_gen fx s1 Stop in
+  w s2 = w s1 /\ inited s2 = inited s1 /\ stopped s2 = stopped s1 /\ loop s2 = loop s1 /\
+  (es = [] \/ es = [ES]) /\ (reliable (k s1) = true -> r = RStop 0).
+Proof. exact stop_idempotent_thm. Qed.
+Print Assumptions C12_stop_idempotent.
+
+(* ---- unreliable sink: ANY outcome script (errors, short writes), both code versions ---- *)
+(* the bytes the Writes reported as consumed are, in order and exactly once, the bytes in the
+   sink followed by the bytes still buffered *)
+Theorem C12_faulty_stream : forall fx c outs ops,
+  let '(s, tr) := run_gen fx (init c outs) ops in
+  consumed ops tr = concat (received (all_evs tr)) ++ buf (w s).
+Proof. exact faulty_stream_thm. Qed.
+Print Assumptions C12_faulty_stream.
+
+(* the model's loop bound for bufio.Writer.Write is never the reason for a result *)
+Theorem C12_fuel_enough : forall b k0 p extra, outs_wf k0 = true ->
+  bwrite (wfuel p + extra) b k0 p = bwrite (wfuel p) b k0 p.
+Proof. exact wfuel_enough. Qed.
+Print Assumptions C12_fuel_enough.
+
+(* ---- the model can express the failures ---- *)
+(* bufio.Writer.Write WITHOUT zap's flush-before-write rule does split a caller's write *)
+Theorem C12_split_without_preflush_refuted : ~ (forall s bs, RInv s ->
+  let '(s1, r, es) := naive_write s bs in
+  forall acc sw, Grp acc sw (buf (w s)) -> Grp (acc ++ [bs]) (sw ++ received es) (buf (w s1))).
+Proof. exact naive_not_whole. Qed.
+Print Assumptions C12_split_without_preflush_refuted.
+
+(* the ORIGINAL Stop/Write (pre-fix): a completed Stop could leave accepted data in the buffer *)
+Theorem C12_stop_flushes_orig_refuted : ~ (forall c ops,
+  let '(s, tr) := run_gen false (init c []) (ops ++ [Stop]) in buf (w s) = []).
+Proof. exact stop_flushes_orig_refuted. Qed.
+Print Assumptions C12_stop_flushes_orig_refuted.
+
+(* ---- liveness: interleaving model of the lock, the stop/done channels and the flush loop ---- *)
+(* any number of threads, any call sequences, any schedule: from the state reached, all calls can
+   still run to completion -- no reachable deadlock *)
+Theorem C12_live : forall progs sched, exists sched', all_done (crun false progs (sched ++ sched')) = true.
+Proof. exact live_thm. Qed.
+Print Assumptions C12_live.
+
+(* a Stop that got past <-done finds the flush loop exited; it stays exited; and once every call
+   has returned and some Stop took effect, the loop has exited *)
+Theorem C12_loop_exits : forall progs sched,
+  let s := crun false progs sched in
+  (forall i pc todo, nth_error (thr s) i = Some (pc, todo) -> past_wait pc = true -> lp s = LExit) /\
+  (forall m, lp s = LExit -> lp (Conc.step false s m) = LExit) /\
+  (all_done s = true -> stp s = true -> lp s = LExit).
+Proof. exact (fun progs sched => conj (exit_after_wait progs sched)
+               (conj (fun m => exit_stable progs sched m) (exit_when_done progs sched))). Qed.
+Print Assumptions C12_loop_exits.
+
+(* waiting for the loop while holding the lock (issue 1428) deadlocks *)
+Theorem C12_live_lockwait_refuted :
+  ~ (forall progs sched, exists sched', all_done (crun true progs (sched ++ sched')) = true).
+Proof. exact lockwait_refuted. Qed.
+Print Assumptions C12_live_lockwait_refuted.
+
+(* ---- the executable oracles mean the property (independently of the model) ---- *)
+(* whatever trace the strong oracle accepts -- in particular one recorded from the real
+   implementation -- consists of whole-write groups in order with a bounded remainder, only
+   successful results, and the documented lifecycle *)
+Theorem C12_oracle_sound : forall c ops tr alive, strong_ok c ops tr alive = true ->
+  (exists groups rest, accepted ops = concat groups ++ rest /\ received (all_evs tr) = map (@concat byte) groups /\
+                       length (concat rest) <= eff_size c) /\
+  Forall2 res_ok ops (map fst tr) /\ alive = is_running (spec_phase ops).
+Proof. exact oracle_sound. Qed.
+Print Assumptions C12_oracle_sound.
+
+(* whatever trace the weak oracle (unreliable sinks, raw bufio) accepts has stream integrity *)
+Theorem C12_weak_oracle_sound : forall ops tr p, wrun p ops tr = true ->
+  exists p', p ++ consumed ops tr = concat (received (all_evs tr)) ++ p'.
+Proof. exact weak_oracle_sound. Qed.
+Print Assumptions C12_weak_oracle_sound.
+
+(* ---- wire: the oracle the driver runs accepts what the model observes, for every case ---- *)
+Theorem C12_wire : forall i, spec i (model i) = true.
+Proof. exact spec_model. Qed.
+Print Assumptions C12_wire.
+
+(* ---- non-vacuity ---- *)
+Example C12_reliable_nonvacuous : reliable [] = true /\ reliable [out_ok; out_ok] = true.
+Proof. split; reflexivity. Qed.
+(* size 4: "abc", "de" (does not fit: pre-flush), "fghij" (larger than the buffer), Sync *)
+Example C12_example :
+  snd (run (init 4 []) [Write [x61; x62; x63]; Write [x64; x65]; Write [x66; x67; x68; x69; x6a]; Sync]) =
+  [ (RW 3 0, []); (RW 2 0, [EW [x61; x62; x63] 3]);
+    (RW 5 0, [EW [x64; x65] 2; EW [x66; x67; x68; x69; x6a] 5]); (RS 0, [ES]) ].
+Proof. vm_compute. reflexivity. Qed.
+(* without the pre-flush rule the same writes are split: "abcd" reaches the sink *)
+Example C12_example_split :
+  snd (naive_write (fst (fst (naive_write (init 4 []) [x61; x62; x63]))) [x64; x65]) = [EW [x61; x62; x63; x64] 4].
+Proof. vm_compute. reflexivity. Qed.
+(* pre-fix vs. repaired code on Write; Stop; Write; Stop *)
+Example C12_example_orig : 
+  snd (run_gen false (init 4 []) [Write [x61; x62]; Stop; Write [x63; x64]; Stop]) =
+    [(RW 2 0, []); (RStop 0, [EW [x61; x62] 2; ES]); (RW 2 0, []); (RStop 0, [])] /\
+  snd (run (init 4 []) [Write [x61; x62]; Stop; Write [x63; x64]; Stop]) =
+    [(RW 2 0, []); (RStop 0, [EW [x61; x62] 2; ES]); (RW 2 0, [EW [x63; x64] 2]); (RStop 0, [ES])].
+Proof. exact stop_flushes_orig_witness. Qed.
+(* a sticky error: the flush fails once, every later Write fails, nothing more reaches the sink *)
+Example C12_example_sticky :
+  snd (run (init 4 [{| o_short := Some 1; o_err := true |}]) [Write [x61; x62; x63]; Write [x64; x65]; Write [x66]; Sync]) =
+  [ (RW 3 0, []); (RW 0 1, [EW [x61; x62; x63] 1]); (RW 0 1, []); (RS 1, [ES]) ].
+Proof. vm_compute. reflexivity. Qed.
+(* the deadlocking schedule of the lock-holding variant completes under the repaired shape *)
+Example C12_example_live : crun true stuck_progs stuck_sched = stuck_state /\
+  all_done (crun false stuck_progs (stuck_sched ++ [MT 0; MLoop; MLoop; MStopSel; MT 0; MT 0; MT 0; MT 0])) = true.
+Proof. split; [exact stuck_reached|exact stuck_sched_fine]. Qed.
